@@ -89,13 +89,14 @@ CLAIMED["C17"] = dict(
     text="Proof: Reader.addToken is verified to add an entry only under ucanCid(sealed bytes), only after the verifying decoder accepted those bytes, and to leave every other entry untouched; "
          "FromCborReader is verified (iterator loop invariant) to return all-or-nothing and to have passed every list element through addToken; GetToken/GetDelegation return exactly the stored entry; "
          "readBlock is verified to accept a CAR block only if its CID equals the prefix-sum of its data; the byte-slice and base64 variants of every reader are verified to be the stream reader over the same (decoded) bytes.",
-    note=STREAM_NOTE + " Trusted contracts on in-repo code (range-over-func iterators are outside the supported subset): FromCarReader and ToCarWriter/writeCar/readCar plumbing; "
-         "the naming of a reader's outcome as a function of the content (determinism of the decoders) is assumed. Byte-level read(write(x)) = x rests on the assumed codec contracts.",
+    note=STREAM_NOTE + " FromCarReader, writeCar, ToCarWriter, readCar and its block iterator, readHeader and carHeader.Write are verified too (range-over-func loops through the yield closure, with invariants: "
+         "every entry labelled by the CID of verified bytes, no block the iterator reports as unreadable is skipped); the iterator value itself is unknown to its consumer (assumed: it calls yield with arbitrary arguments, stops after false, terminates). "
+         "The naming of a reader's outcome as a function of the content (determinism of the decoders) is assumed. Byte-level read(write(x)) = x rests on the assumed codec contracts.",
     design="DESIGN.md §3 C17, §7")
 CLAIMED["C18"] = dict(
     text="Proof: ghost fault counters on abstract streams quantify over every fault position at once. CIDReader.Read latches every non-EOF error and CIDReader.CID refuses after one; "
          "FromSealedReader returns a token and CID only for bytes x that the source delivered without a fault, with CID = ucanCid(x) and the token decoded from x (equal to the buffered result by congruence); "
          "ToSealedWriter / EncodeWriter return nil only if the sink accepted exactly the buffered encoding without a fault; ToCborWriter, ldWrite (loop invariants) and the base64 writers return nil only if no write failed, "
          "including the final flush of the base64 encoder; ldRead / readBlock return io.EOF only at a section boundary and never after a fault.",
-    note=STREAM_NOTE + " Trusted contracts on in-repo code: FromCarReader, ToCarWriter (range-over-func). Chunking independence is inherited from the assumed codec contract (decode of the delivered prefix).",
+    note=STREAM_NOTE + " Chunking independence is inherited from the assumed codec contract (decode of the delivered prefix).",
     design="DESIGN.md §3 C18, §7")
